@@ -259,6 +259,9 @@ func monC09(c *drv.Ctx) {
 		var encs [][]byte
 		for i := 0; i < nv; i++ {
 			l := []int{0, 5, 100, 4000, 4096, 5000, 9000, 20000, 40000}[r.Intn(9)]
+			if r.Intn(40) == 0 {
+				l = []int{1<<20 + 100, 3 << 19, 4<<20 + 7}[r.Intn(3)] // beyond 1 MiB / 4 MiB
+			}
 			v := ref.Value{T: ref.STRUCT, Fields: []ref.Field{{ID: 1, V: ref.Value{T: ref.STRING, S: gen.Bytes(r, l)}}, {ID: 2, V: ref.Value{T: ref.I64, I: int64(i)}}, {ID: 3, V: ref.Value{T: ref.STRING, S: gen.Bytes(r, l/3)}}}}
 			e := v.Encode(nil)
 			encs = append(encs, e)
